@@ -253,6 +253,13 @@ fn run(ctx: &mut Ctx) {
             let mut l = chunks.clone();
             l.push(chunks[k].clone());
             fault(ctx, "duplicate chunk", l, rng);
+            // the copy carries other packet / channel sequence numbers (a "retransmission"): still a duplicated id
+            let mut r2 = raw[k].clone();
+            r2.packet_sequence = r2.packet_sequence.wrapping_add(1 + rng.below(1000) as u32);
+            r2.channel_sequence = r2.channel_sequence.wrapping_add(1 + rng.below(100) as u16);
+            let mut l = chunks.clone();
+            l.insert(rng.usize(l.len() + 1), dec(&r2));
+            fault(ctx, "duplicate chunk with other sequence numbers", l, rng);
             // the copy arriving right after / right before the original, list otherwise in id order
             for (name, at) in [("duplicate chunk adjacent (after)", k + 1), ("duplicate chunk adjacent (before)", k)] {
                 ctx.eval();
